@@ -48,9 +48,48 @@ fn work_assign(n: usize) -> u64 {
     after - before
 }
 
+/// a sparse operand of n digits: `nz` non-zero digits spread evenly, lowest and top digit non-zero (nothing for the
+/// low-zero stripping to remove)
+fn sparse(n: usize, nz: usize) -> BigUint {
+    let mut v = vec![0u32; 2 * n];
+    for k in 0..nz {
+        let pos = if nz == 1 { 0 } else { k * (n - 1) / (nz - 1) };
+        v[2 * pos] = 0x9E37_79B9 ^ k as u32 | 1;
+        v[2 * pos + 1] = 0x7F4A_7C15 ^ (k as u32).wrapping_mul(77) | 1;
+    }
+    BigUint::new(v)
+}
+fn work_pair(a: &BigUint, b: &BigUint) -> u64 {
+    let before = verif_probe::get(Probe::MAC_DIGIT_WORK);
+    let p = a * b;
+    let after = verif_probe::get(Probe::MAC_DIGIT_WORK);
+    assert!(p.bits() > 0);
+    after - before
+}
+
 pub fn run(r: &mut Rec) {
     if !r.case("cost table") {
         return;
+    }
+    // sparse against dense, both orders, balanced and one-to-two: the quarter bound and the schoolbook bound only
+    // (doubling ratios are not asked of sparse operands: skipped zero rows make them irregular)
+    {
+        let mut bal: Vec<String> = vec![];
+        let mut unbal: Vec<String> = vec![];
+        for &n in &[4096usize, 8192] {
+            for &nz in &[8usize, 24, 32] {
+                let s = sparse(n, nz);
+                let d = dense(n, 7);
+                bal.push(format!("{{\"n\":{},\"w\":{}}}", n, sc_json(&work_pair(&s, &d).sc())));
+                bal.push(format!("{{\"n\":{},\"w\":{}}}", n, sc_json(&work_pair(&d, &s).sc())));
+                let d2 = dense(2 * n, 8);
+                unbal.push(format!("{{\"n\":{},\"m\":{},\"w\":{}}}", n, 2 * n, sc_json(&work_pair(&s, &d2).sc())));
+                let s2 = sparse(2 * n, nz);
+                unbal.push(format!("{{\"n\":{},\"m\":{},\"w\":{}}}", n, 2 * n, sc_json(&work_pair(&s2, &d).sc())));
+            }
+        }
+        let ex = format!("\"bal\":[{}],\"unbal\":[{}]", bal.join(","), unbal.join(","));
+        r.op("cost_sparse", "sparse_dense", &[], &[], &ex, |_| Ret::none());
     }
     let mut bal: Vec<String> = vec![];
     let mut n = 256usize;
